@@ -50,7 +50,8 @@ inline bool path_match(const std::string &p, size_t i, const std::string &a, siz
             while(k < p.size() && p[k] >= '0' && p[k] <= '9') { N = N * 10 + (unsigned)(p[k] - '0'); ++k; any = true; }
             if(!any) return false;
             size_t e = j; unsigned long long v = 0; int digits = 0;
-            while(e < a.size() && a[e] >= '0' && a[e] <= '9') { if(digits < 18) v = v * 10 + (unsigned)(a[e] - '0'); else v = ~0ull / 16; ++e; ++digits; }
+            // value of the maximal digit run; leading zeros do not count towards the 18 significant digits that fit
+            while(e < a.size() && a[e] >= '0' && a[e] <= '9') { if(v == 0 && a[e] == '0') { ++e; continue; } if(digits < 18) v = v * 10 + (unsigned)(a[e] - '0'); else v = ~0ull / 16; ++e; ++digits; }
             if(e == j) return false;
             if(!(v < N)) return false;
             i = k; j = e; continue;
